@@ -12,6 +12,7 @@ The predicate is written from the code that relies on it:
 Nothing here asserts; every function returns a list of (signature tuple, one-line text).
 """
 import os
+import re
 import traceback
 
 ID = "C03"
@@ -77,10 +78,11 @@ def check_unit(rows, lang, lo=None, hi=None):
             op = r.get("operation") if isinstance(r, dict) else type(r).__name__
             add("0:malformed-row", op, "row %d lacks operation/stmt_id/parent_stmt_id: %.120r" % (i, r))
             continue
-        for k, v in r.items():
+        for k in ALWAYS_BODY_ATTRS:
+            v = r.get(k)
             if isinstance(v, (dict, list, tuple, set)):
-                add("0:non-scalar-attribute", "%s.%s" % (r["operation"], k),
-                    "row %d (%s id %d) attribute %s is a %s" % (i, r["operation"], r["stmt_id"], k, type(v).__name__))
+                add("3:body-attribute-not-flattened", "%s.%s" % (r["operation"], k),
+                    "row %d (%s id %d) attribute %s is a %s, not a block id" % (i, r["operation"], r["stmt_id"], k, type(v).__name__))
         ok_rows.append(r)
     if len(ok_rows) != len(rows):
         return out
@@ -226,6 +228,18 @@ def check_unit(rows, lang, lo=None, hi=None):
     return out
 
 
+def nonscalar_attributes(rows):
+    """(operation.attribute, type name) of attribute values that are containers.  Not demanded by C03 (the
+    statement speaks about ids, blocks, bodies and methods); counted as an observation only."""
+    out = []
+    for r in rows or ():
+        if isinstance(r, dict):
+            for k, v in r.items():
+                if isinstance(v, (dict, list, tuple, set)):
+                    out.append(("%s.%s" % (r.get("operation"), k), type(v).__name__))
+    return out
+
+
 # ---------------------------------------------------------------------------------------------
 # add_main_func: before/after relation (the "contains ALL top-level statements, in order" clause)
 
@@ -309,6 +323,10 @@ GENERIC_FRAMES = frozenset([
 ])
 
 
+_PASSES_LIST_CLASS = re.compile(r",\s*list\s*\)")
+_ATTR_RE = re.compile(r"^'([A-Za-z_][A-Za-z0-9_.]*)' object has no attribute '([A-Za-z_][A-Za-z0-9_]*)'")
+
+
 def _is_lian(filename):
     f = filename.replace("\\", "/")
     return "/lian/" in f and "/harness/" not in f
@@ -320,11 +338,23 @@ def crash_signature(lang, exc):
     tb = traceback.extract_tb(exc.__traceback__)
     frames = [f for f in tb if _is_lian(f.filename)]
     etype = type(exc).__name__
+    if isinstance(exc, AttributeError):
+        # "'Parser' object has no attribute 'parse_field'" (a method that does not exist: decided by the code)
+        # is another root cause than a None node met in the same handler (decided by the input)
+        m = _ATTR_RE.match(str(exc))
+        if m and m.group(1) != "NoneType":
+            etype = "AttributeError:%s.%s" % (m.group(1), m.group(2))
     if isinstance(exc, RecursionError):
         # the frame where the limit is hit is arbitrary: name the recursion by the module that recurses
         mod = os.path.splitext(os.path.basename(frames[-1].filename))[0] if frames else "?"
         return (ID, "crash", lang, etype, mod)
     fn = "?"
+    if isinstance(exc, TypeError) and str(exc).startswith("descriptor 'append' for 'list' objects"):
+        # somebody passed the class `list` as the statement list: name the frame that did it, not the handler
+        # that happened to emit the first statement into it
+        for f in reversed(frames):
+            if f.line and _PASSES_LIST_CLASS.search(f.line):
+                return (ID, "crash", lang, etype, f.name)
     for f in reversed(frames):
         if f.name in GENERIC_FRAMES:
             continue
@@ -334,6 +364,14 @@ def crash_signature(lang, exc):
         if frames:
             fn = frames[-1].name
     return (ID, "crash", lang, etype, fn)
+
+
+def reject_signature(lang, exc):
+    """SystemExit on an input without any syntax error: name the lian function that gave up."""
+    tb = traceback.extract_tb(exc.__traceback__)
+    frames = [f for f in tb if _is_lian(f.filename) and f.name not in ("error_and_quit", "syntax_error")]
+    fn = frames[-1].name if frames else "?"
+    return (ID, "reject", lang, "SystemExit", fn)
 
 
 def crash_text(exc):
